@@ -290,7 +290,7 @@ class SchemaGen:
                 elif isinstance(d, Const) and isinstance(d.value, int) and not isinstance(d.value, bool):
                     consts.append(d)
         if rng.random() < cfg.name_prefix:
-            f.add(Option("c.name_prefix", rng.choice(["my_prefix_", "Ab", "xq_", "Zz"])))
+            f.add(Option("c.name_prefix", rng.choice(["my_prefix_", "Ab", "xq_", "Zz", "X", "My", "Drone"])))
         if rng.random() < cfg.packing:
             f.add(Option("c.struct_packing_alignment", rng.choice([3, 5, 6, 7]) if rng.random() < cfg.bad_packing else rng.choice([1, 2, 4, 8])))
         if rng.random() < cfg.module_options:
